@@ -131,11 +131,32 @@ PROPS = {
                        'That a rejected connection is closed before any read is the event-loop open/handleAction path, exercised here through the stepper.',
         'assumptions': ['YAML parsing and inotify/fsnotify semantics are outside the model (the watcher is exercised for real in the suite)', 'IPv4 client addresses', 'the unsynchronised enable flag (data race between watcher goroutine and event loop) is outside the model'],
     },
+    'C14': {
+        'props': 'Props/C14.v',
+        'suites': [{'name': 'cluster', 'oracles': {'cluster': 'o_cluster'}, 'trivial_tags': ['nodes-1', 'nodes-2'], 'vm_sample': 25}],
+        'rule': 'cparse: generated CLUSTER NODES texts (1-4 masters x 0-2 replicas; flags myself/master/slave/fail/fail?/handshake/noaddr/empty; link states; truncated column counts; '
+                'slot shapes single, range, two ranges, migration markers, out-of-range, reversed, junk; addresses with/without @cport, missing port, hostnames, +port, IPv6) with a scripted INFO oracle '
+                'and a random subset of already-known addresses, through ClusterNodes.parse. cluster: histories of 2-8 events (usable texts, re-parented replica, changed topology, unusable replies '
+                '+OK / nil / error / no LF / short bulk / 200 KB bulk / empty bulk, ticker rounds) through the PRODUCTION refresh goroutine and eventloop.ticker. distinct = distinct text/history',
+        'explanation': 'Theorems: the loop is total for every history and never ends; unusable replies and texts with fewer than three usable nodes leave the state untouched and never block a later '
+                       'adoption; the node filter rules; slot numbers in range; the slot table and replica sets are what the adopted node list describes (owner claims the slot; unique under disjoint '
+                       'claims; unclaimed slots unowned); pools equal the adopted servers. Four genuine defects repaired (loop ended on any unusable reply; short replies panicked the goroutine; '
+                       're-parented replica not noticed; slot >= 16384 crashed the ticker). Convergence "within a few seconds" (1 s ticker cadence) is runtime behaviour outside the model.',
+        'assumptions': ['the unsynchronised sharing of Replicasets/serverChanged between the refresh goroutine and the event loop (a data race) is outside the model',
+                        'which pooled connection carries the probe and the 1-second cadence are outside the model',
+                        'fingerprint equality is treated as "same topology" (string formatting injective for addresses without # and ,)'],
+    },
 }
 
 NOT_YET = {}
 
 MANIFEST_TEXT = {
+    'C14': {
+        'text': 'Coq theorems over the model of loopClusterNodes/parse/isChanged/setReplicaset/ticker: total loop for all histories, unusable replies are no-ops that never block later updates, node filter rules, '
+                'slot range, slot-table and replica-set characterisation, pools = adopted servers. Tied to the Go code by generated texts through ClusterNodes.parse and histories through the real refresh goroutine and ticker.',
+        'note': 'Trusted: Coq kernel, extraction, harness + cluster hooks (INFO oracle stub). Timing (seconds), the goroutine data race and fingerprint-string injectivity are not proved.',
+        'technique': 'Coq proof (fold over reply histories, characterisation lemmas) + differential correspondence through the real goroutine and ticker',
+    },
     'C18': {
         'text': 'Coq theorems: admitted set after any version history = last version (additions and removals); admission on the address part; reload event filter. Tied to parseAuthIp/Validate/OnCOpened '
                 'by loading real YAML files and connecting through the stepper, and to the watcher by real edits (in place, rename-over, remove+create).',
